@@ -201,6 +201,82 @@ func runC18(c *Ctx) {
 		c.R.Check(bad == "", "R18.23", "the lexer compares runes exactly (no case folding)", cpPkg, fmt.Sprintf("%d functions of the lexer package: no call of a case-folding function", nF),
 			bad+": a delimiter is recognised in another spelling than the language's - text that is code (\"x =BEGIN_MARK\") opens a comment, or a comment is closed early (\"=End\")")
 	}
+	// R18.25 a piece of the input is cut out with an upper bound only where that bound was tested: a slice expression s[a:b] of a
+	// string with a computed b stands behind a test of b (or of the amount added to a) against a length. A look-ahead of the
+	// length of a delimiter panics when the delimiter's first byte stands within the last few bytes of the text.
+	// R18.26 the lexer advances by the width the decoder reported: utf8.RuneLen is not applied to a rune that came out of a
+	// decoder - for an invalid byte the decoder returns (RuneError, 1) and RuneLen(RuneError) is 3, so two more bytes are
+	// skipped unseen (a newline, a closing quote, the end of a comment).
+	{
+		bad25, bad26 := "", ""
+		n25 := 0
+		for _, fn := range pkgFuncs(p, cpPkg) {
+			for _, b := range fn.Blocks {
+				for _, in := range b.Instrs {
+					switch x := in.(type) {
+					case *ssa.Slice:
+						if !isString(x.X.Type()) || x.High == nil {
+							continue
+						}
+						if _, isK := x.High.(*ssa.Const); isK {
+							continue
+						}
+						hi := core.Unspill(x.High)
+						if cl, isCall := hi.(*ssa.Call); isCall {
+							if bi, isB := cl.Call.Value.(*ssa.Builtin); isB && bi.Name() == "len" {
+								continue
+							}
+						}
+						n25++
+						guarded := false
+						for _, f := range core.FactsAt(b) {
+							cmp, ok := f.AsCmp()
+							if !ok {
+								continue
+							}
+							for _, o := range []ssa.Value{core.Unspill(cmp.X), core.Unspill(cmp.Y)} {
+								if o == hi {
+									guarded = true
+								}
+							}
+						}
+						// a bound that is itself a position the lexer reached (a field load, a phi of offsets) was in range when it
+						// was reached
+						switch hi.(type) {
+						case *ssa.UnOp, *ssa.Phi, *ssa.Parameter, *ssa.Extract:
+							guarded = true
+						}
+						if !guarded && bad25 == "" {
+							bad25 = core.ShortFn(fn) + " at " + p.Pos(x.Pos())
+						}
+					case *ssa.Call:
+						if core.StaticCalleeName(x.Common()) != "unicode/utf8.RuneLen" {
+							continue
+						}
+						arg := core.Unspill(x.Call.Args[0])
+						if ex, isEx := arg.(*ssa.Extract); isEx {
+							if cl, isCall := ex.Tuple.(*ssa.Call); isCall {
+								n := core.StaticCalleeName(cl.Common())
+								if strings.HasPrefix(n, "unicode/utf8.DecodeRune") || (cl.Call.StaticCallee() != nil && core.FuncPkgPath(cl.Call.StaticCallee()) == cpPkg) {
+									if bad26 == "" {
+										bad26 = core.ShortFn(fn) + " at " + p.Pos(x.Pos())
+									}
+								}
+							}
+						}
+						if _, isPrm := arg.(*ssa.Parameter); isPrm && bad26 == "" {
+							// a rune handed in by the lexer loop was decoded there
+							bad26 = core.ShortFn(fn) + " at " + p.Pos(x.Pos())
+						}
+					}
+				}
+			}
+		}
+		c.R.Check(bad25 == "", "R18.25", "a piece of the input is cut out only up to a tested bound", cpPkg, fmt.Sprintf("%d slices of a string with a computed upper bound", n25),
+			"a string is sliced up to a computed bound without a test of that bound ("+bad25+"): at the end of the text the bound lies behind the last byte and Parse panics")
+		c.R.Check(bad26 == "", "R18.26", "the lexer does not take the width of a decoded rune from utf8.RuneLen", cpPkg, "no call of utf8.RuneLen on a rune that came out of a decoder",
+			"utf8.RuneLen is applied to a decoded rune ("+bad26+"): an invalid byte decodes to (RuneError, width 1) but RuneLen(RuneError) is 3 - the lexer skips two bytes it never looked at, which can be a line break, a closing quote or the end of a comment")
+	}
 	// R18.24 the end of the input is known from the offset, not from the decoded rune: utf8.RuneError is what the decoder returns
 	// for the end of the input AND for every invalid byte AND for a literal U+FFFD - a function of the lexer that compares a
 	// decoded rune with it also looks at the width (the second result), or lexing stops at the first such byte and the comments
